@@ -224,6 +224,32 @@ func runC17(rc *RunCtx) {
 				op, k.name, lastFaultDesc, lv, md, me, k.latest, k.minDec, k.minEnc)
 			return false
 		}
+		// ... and so must the usability of its versions: a ciphertext the
+		// unchanged configuration admits still decrypts (a failed config
+		// change that already archived key versions in the cached policy
+		// restores min_decryption_version but not the versions themselves)
+		for _, c := range cts {
+			if c.key != k || !expectDecrypt(c, k.minDec, k.minAvail) {
+				continue
+			}
+			data := map[string]any{"ciphertext": c.ct}
+			if c.ctx != nil {
+				data["context"] = b64(c.ctx)
+			}
+			if c.aad != nil {
+				data["associated_data"] = b64(c.aad)
+			}
+			r2, e2 := h.Do("dec", Req{Op: logical.UpdateOperation, Path: "transit/decrypt/" + k.name, Token: h.Root, Data: data})
+			if e2 == nil && r2 != nil && r2.IsError() {
+				e2 = r2.Error()
+			}
+			if e2 != nil {
+				viol("failed-mutation-changed-state", map[string]any{"op": op, "commit_failed": strings.HasPrefix(lastFaultDesc, "commit")},
+					"%s of %s returned an error (storage fault at %q) and the key still reports latest=%d min_dec=%d min_enc=%d, but its v%d ciphertext is now refused: %v",
+					op, k.name, lastFaultDesc, lv, md, me, c.version, e2)
+				return false
+			}
+		}
 		return true
 	}
 	nOps := 8 + tp.Pick(14)
@@ -470,6 +496,8 @@ func runC17(rc *RunCtx) {
 				if na > k.minAvail {
 					k.minAvail = na
 				}
+			} else if !unchanged(k, "trim") {
+				return
 			}
 			if !crashCheck("trim", from, k, k.minDec, oldAvail) {
 				return
